@@ -401,6 +401,17 @@ func CR3(p CR3Parts, extra int) []*Box {
 		meta.Children = append([]*Box{{Type: "zzzz", Payload: raw([]byte("unknown child with II*\x00 inside"))}}, meta.Children...)
 		meta.Children = append(meta.Children, &Box{Type: "yyyy", Payload: raw(make([]byte, 5))})
 	}
+	switch extra { // other orders of the children of the metadata uuid box (the box format fixes none)
+	case 9: // the thumbnail first
+		c := meta.Children
+		meta.Children = append([]*Box{c[len(c)-1]}, c[:len(c)-1]...)
+	case 10: // the four CMT boxes first, Canon's own boxes behind them
+		c := meta.Children
+		meta.Children = []*Box{c[4], c[5], c[6], c[7], c[8], c[0], c[1], c[2], c[3]}
+	case 11: // interleaved
+		c := meta.Children
+		meta.Children = []*Box{c[4], c[8], c[5], c[0], c[6], c[1], c[3], c[7], c[2]}
+	}
 	mvhd := &Box{Type: "mvhd", Full: true, Payload: raw(make([]byte, 96))}
 	trak := &Box{Type: "trak", Children: []*Box{{Type: "tkhd", Full: true, Payload: raw(make([]byte, 80))},
 		{Type: "mdia", Children: []*Box{{Type: "mdhd", Full: true, Payload: raw(make([]byte, 20))}, {Type: "hdlr", Full: true, Payload: raw([]byte("\x00\x00\x00\x00vide\x00\x00\x00\x00\x00\x00\x00\x00\x00\x00\x00\x00\x00"))}}}}}
